@@ -60,9 +60,13 @@ def judge(h, warm, end, reference_trace=None, program_changed=False):
         if name == "stop":
             nxt = next((j for j in range(i + 1, len(last)) if last[j][0] == "c" and last[j][1] in START_LIKE and last[j][2] == "call"), len(last))
             later_h = [x for x in last[i + 1:nxt] if x[0] == "h"]
-            if r[4] == h.sim.name and later_h:
-                # stop() issued on the run thread itself (listener / handler): the event of the current loop
-                # iteration - "the event about to run" of a TIME_CHANGED notification - still belongs to the run
+            nested = any(x[0] == "c" and x[1] in START_LIKE and x[2] == "call" and x[4] == r[4] and
+                         not any(y[0] == "c" and y[1] == x[1] and y[2] == "ret" and y[4] == r[4] for y in last[last.index(x):call + 1])
+                         for x in last[:call])
+            if (r[4] == h.sim.name or nested) and later_h:
+                # stop() issued on the run thread itself, or on the caller thread from inside its own step()/start()
+                # (listener / handler): the event of the current loop iteration - "the event about to run" of a
+                # TIME_CHANGED notification - still belongs to the run
                 later_h = later_h[1:]
             if later_h:
                 out.append(("handler-ran-after-accepted-stop", {"handlers": later_h[:5]}))
